@@ -40,6 +40,11 @@ func stateAnnotation(s *Scanner, c byte) *jerr.JApiError {
 func stateMultilineAnnotationTextStart(s *Scanner, c byte) *jerr.JApiError {
 	s.foundAt(s.curIndex, AnnotationBegin)
 	s.step = stateMultilineAnnotation
+	if c == AnnotationDelimiterPart {
+		// The '*' before this '/' is the one which opened the annotation, it
+		// cannot close it as well.
+		return nil
+	}
 	return stateMultilineAnnotation(s, c)
 }
 
